@@ -17,6 +17,11 @@ var Rules = []report.Rule{
 	{ID: "V6", Floor: 1000, Props: []string{"C02"}, Text: "a flow task/predicate call passes [ctx +] one distinct directive-level variable per parameter and assigns one directive-level variable per result [+ err], outside any loop"},
 	{ID: "V7", Floor: 300, Props: []string{"C02", "C07"}, Text: "each Results target is assigned once, from a value variable, at top level strictly after a successful Wait; on failure the very error of Wait is returned and no target is written"},
 	{ID: "V9", Floor: 1000, Props: []string{"C03", "C08", "C19"}, Text: "SchedulerParams: Concurrency / ContinueOnError are the directive's hoisted arguments iff given; Emitter derives from all directive emitters in order"},
+	{ID: "V10", Floor: 100, Props: []string{"C10", "C01"}, Text: "Task: one unconditional Enqueue outside any loop. Slice/Map: one range loop over the directive's collection; per iteration one unconditional Enqueue of a closure created in that iteration, calling the function with per-iteration copies of (index/key, value); End job enqueued once after the loop with Dependencies = the slice that receives every iteration's job"},
+	{ID: "V11", Floor: 300, Props: []string{"C11", "C04"}, Text: "predicate result stored by a never-failing predicate job; task call dominated by p == true; false edge is exactly `return nil`; recover handler registered before the gate"},
+	{ID: "V12", Floor: 1000, Props: []string{"C11"}, Text: "task outputs are written only by the user call and, iff FallbackWith, by `outputs..., err = fallbacks..., nil` exactly on the err != nil edge after the call and on the recovered != nil edge of the handler"},
+	{ID: "V13", Floor: 3000, Props: []string{"C18"}, Text: "event typestate in site/condition form: Done emitted once by the first-registered defer; Error(err) once on the Wait-failed edge with the returned error, Success once before the final return nil, no other exits; skipped sweep deferred before the first Enqueue, testing each task's ran flag, every task struct swept once; per task: Success iff call returned without error, Error/ErrorRecovered(err) iff err != nil, Panic/PanicRecovered(recovered) iff recovered != nil in the handler, ran.Store(true) once past the gate before the call, TaskDone by the first-registered defer guarded by ran.Load(); emitters built by XInit iff instrumented, with this task's name"},
+	{ID: "V17", Floor: 300, Props: []string{"C12", "C18"}, Text: "the ran flags are sync/atomic values used only through their methods"},
 	{ID: "V8", Floor: 1000, Props: []string{"C05", "C06"}, Text: "exactly one unconditional Wait; no return between NewScheduler and Wait; no Enqueue after Wait"},
 	{ID: "V16", Floor: 1000, Props: []string{"C13", "C20", "C10", "C02"}, Text: "every expanded directive parses and type-checks under adversarial import aliases"},
 }
@@ -62,5 +67,9 @@ func runOne(in *Instance, s *report.Sink) {
 	rc.hbCover()
 	rc.wiring()
 	rc.schedParams()
+	rc.parallelOnce()
+	rc.predicateAndFallback()
+	rc.atomicRan()
+	rc.events()
 	s.AddFact("gen.job_closures", len(x.Jobs))
 }
